@@ -502,8 +502,9 @@ def fam_typedassign(tier):
                 g.add('assign-global', b'mixed @F(int x, float y) { gi = x; gi = gi ' + o + b' y; return gi; }', A)
                 g.add('opassign-global', b'mixed @F(int x, float y) { gi = x; gi ' + o + b'= y; return gi; }', A)
                 yield g
-    for y in (0.5, -0.5, 1.5, 3.0, 1e10):
-        g = Group('typedassign', 'init', 'if', None, b'int x = ' + lit(y))
+    for y in (0.5, -0.5, 1.5, 3.0, 1e10, -1e10, 2147483648.5):
+        # the compiler converts a float stored into an int variable; LPC ints are 64-bit, so nothing may be lost below 2^63
+        g = Group('typedassign', 'init', 'if' + (':i64' if abs(y) >= 2147483648 else ''), ('V', canon(int(y))), b'int x = ' + lit(y))
         g.add('assign', b'mixed @F(float y) { int x; x = y; return x; }', carg(y))
         g.add('init', b'mixed @F(float y) { int x = y; return x; }', carg(y))
         g.add('init-literal', b'mixed @F() { int x = ' + lit(y) + b'; return x; }')
